@@ -429,11 +429,20 @@ class NetworkService(ModelElement):
         :param kwargs: typically labels and capacities to put on the interface facing the other service
         """
         assert(isinstance(ns, NetworkService))
-        self_iface = self.add_interface(name=self.name + '-' + ns.name, itype=InterfaceType.ServicePort, **kwargs)
-        other_iface = ns.add_interface(name=ns.name + '-' + self.name, itype=InterfaceType.ServicePort)
-        # link them together with L2Path
-        peer_link = Link(name=self_iface.name + '-link', topo=self.topo, etype=ElementType.NEW,
-                         interfaces=[self_iface, other_iface], ltype=LinkType.L2Path)
+        created = list()
+        try:
+            self_iface = self.add_interface(name=self.name + '-' + ns.name, itype=InterfaceType.ServicePort, **kwargs)
+            created.append(self_iface)
+            other_iface = ns.add_interface(name=ns.name + '-' + self.name, itype=InterfaceType.ServicePort)
+            created.append(other_iface)
+            # link them together with L2Path
+            peer_link = Link(name=self_iface.name + '-link', topo=self.topo, etype=ElementType.NEW,
+                             interfaces=[self_iface, other_iface], ltype=LinkType.L2Path)
+        except Exception:
+            # a later step was refused (name taken or too long): leave no half-made peering behind
+            for iface in created:
+                self.topo.graph_model.remove_cp_and_links(node_id=iface.node_id)
+            raise
         # update interface lists
         self._interfaces.append(self_iface)
         ns._interfaces.append(other_iface)
